@@ -143,6 +143,8 @@ class Douglas(DiscriminativeModel):
                 raise ValueError("The boolean feature mask must have as much entries as the number of features")
             self.cut_points_list_ = [(i, random_state.normal(size=self.n_cuts, )) for i in range(X.shape[1])
                                      if self.feature_mask[i]]
+            if len(self.cut_points_list_) == 0:
+                raise ValueError("The boolean feature mask must select at least one feature")
             num_leaf = int((self.n_cuts + 1) ** len(self.cut_points_list_))
 
         if self.verbose:
